@@ -135,22 +135,34 @@ Proof.
 Qed.
 
 (* ---------- OP_RETURN ---------- *)
+Lemma cur_parent_close : forall i s,
+  th_parent (get_thread (closeUpvalues_st i s) (vcur (closeUpvalues_st i s))) = th_parent (get_thread s (vcur s)).
+Proof.
+  intros i s. unfold get_thread. rewrite !Nat.eqb_refl. reflexivity.
+Qed.
+
 (* a return pops exactly one frame; before anything else it closes the frame's upvalues, so no
    open upvalue is left at or above the frame's LocalBase and the list is still sorted and open *)
 Theorem return_spec : forall cf RA B base s b s',
-  vstack s <> [] -> state_cache_inv s ->
+  vstack s <> [] -> state_cache_inv s -> not_coroutine_bottom s ->
   do_return cf RA B base s = VRet b s' ->
   S (length (vstack s')) = length (vstack s) /\
   state_cache_inv s' /\
   (forall u, In u (vuvcache s') -> uv_index (uvat (vuvs s') u) < fr_localbase cf).
 Proof.
-  intros cf RA B base s b s' Hne Hinv H. unfold do_return in H.
+  intros cf RA B base s b s' Hne Hinv Hnb H. unfold do_return in H.
   bind_inv H u0 s1 E1.
   assert (s1 = closeUpvalues_st (fr_localbase cf) s) by (inversion E1; reflexivity). subst s1.
   destruct (close_ge (fr_localbase cf) s Hinv) as [Hi [Hlt [_ [_ [Hreg Hstk]]]]].
+  pose proof (cur_parent_close (fr_localbase cf) s) as Hpar.
   set (sc := closeUpvalues_st (fr_localbase cf) s) in *.
   bind_inv H top s2 E2. assert (s2 = sc) by (inversion E2; reflexivity). subst s2.
-  bind_inv H s0 s3 E3. assert (s3 = sc) by (inversion E3; reflexivity). subst s3.
+  bind_inv H s0 s3 E3. assert (s3 = sc /\ s0 = sc) by (inversion E3; split; reflexivity). destruct H0; subst s3 s0.
+  assert (Hcond : (match th_parent (get_thread sc (vcur sc)) with Some _ => true | None => false end
+                   && Nat.eqb (length (vstack sc)) 1) = false).
+  { rewrite Hpar, Hstk. destruct Hnb as [Hn|Hn]; [rewrite Hn; reflexivity|].
+    apply andb_false_iff. right. apply Nat.eqb_neq. exact Hn. }
+  rewrite Hcond in H.
   bind_inv H u1 s4 E4. assert (s4 = with_stack sc (tl (vstack sc))) by (inversion E4; reflexivity). subst s4.
   bind_inv H s5 s6 E6. assert (s6 = with_stack sc (tl (vstack sc))) by (inversion E6; reflexivity). subst s6.
   bind_inv H u2 s7 E7.
@@ -165,7 +177,7 @@ Proof.
 Qed.
 
 Theorem no_dangling_after_return : forall cf RA B base s b s' u,
-  vstack s <> [] -> state_cache_inv s ->
+  vstack s <> [] -> state_cache_inv s -> not_coroutine_bottom s ->
   do_return cf RA B base s = VRet b s' ->
   In u (vuvcache s') -> uv_index (uvat (vuvs s') u) < fr_localbase cf.
 Proof. intros. eapply return_spec; eassumption. Qed.
@@ -184,4 +196,26 @@ Proof.
   apply tailcall_lua_keeps in H. destruct H as [_ [Hu Hc]].
   unfold state_cache_inv in *. rewrite Hu, Hc. split; [exact Hi|].
   intro Hin. apply Hlt. exact Hin.
+Qed.
+
+(* ---------- PCall's recovery ---------- *)
+(* after a protected call has caught an error (with or without a message handler): the frames
+   above the protected call are gone, the registry ends at the callee's slot, and no open upvalue
+   is left at or above it - the registers of the unwound frames are not referenced any more *)
+Theorem pcall_recovery_dangle_free : forall sp base s,
+  state_cache_inv s ->
+  let s' := unwind sp base s in
+  state_cache_inv s' /\
+  rtop (vreg s') = base /\
+  (length (vstack s') <= length (vstack s))%nat /\
+  (forall u, In u (vuvcache s') -> uv_index (uvat (vuvs s') u) < base /\ uv_closed (uvat (vuvs s') u) = false).
+Proof.
+  intros sp base s Hinv. cbv zeta. unfold unwind.
+  assert (Hinv' : state_cache_inv (SetSp sp s)) by exact Hinv.
+  destruct (close_ge base (SetSp sp s) Hinv') as [Hi [Hlt [_ [_ [_ Hstk]]]]].
+  set (s1 := closeUpvalues_st base (SetSp sp s)) in *.
+  split; [exact Hi|]. split; [reflexivity|]. split.
+  - change (vstack (with_reg s1 (SetTop (vreg s1) base))) with (vstack s1).
+    rewrite Hstk. unfold SetSp. simpl. rewrite skipn_length. lia.
+  - intros u Hu. apply Hlt. exact Hu.
 Qed.
